@@ -66,7 +66,7 @@ NoCall == [op |-> "none", job |-> 0, qi |-> 0, b |-> 0, n |-> 0, at |-> 0, snap 
            solo |-> FALSE, quiet |-> FALSE, ref |-> "unknown", same |-> FALSE, rankFloor |-> -1, closedBefore |-> FALSE, qclosedBefore |-> FALSE, waitedBefore |-> FALSE]
 NoHdr == [ev |-> "reset", ep |-> "", mode |-> "gated", wk |-> "plain", conc |-> 1, ncpu |-> 1, queues |-> <<>>, jobs |-> <<>>,
           batches |-> <<>>, clients |-> <<>>, expiry |-> 0, ratio |-> 0, ctx |-> FALSE, strategy |-> "rr",
-          idgen |-> FALSE, nobind |-> FALSE, family |-> "", consumers |-> 1, preload |-> <<>>]
+          idgen |-> FALSE, wsids |-> FALSE, nobind |-> FALSE, family |-> "", consumers |-> 1, preload |-> <<>>]
 
 SumSeq(s) == LET F[i \in 0..Len(s)] == IF i = 0 THEN 0 ELSE F[i - 1] + s[i] IN F[Len(s)]
 Max(S) == CHOOSE x \in S : \A y \in S : y <= x
@@ -350,7 +350,9 @@ C01_NoRejected == \A j \in Jobs : sub[j] = "rej" => enters[j] = 0
 C01_NotBeforeSubmit == \A j \in Jobs : enters[j] > 0 => sub[j] # "none"
 \* a job is never started after a Close on its handle has returned nil
 C01_NoCancelled == E.ev = "enter" /\ E.job \in Jobs => ~closeNil[E.job]
-ExpectedId(j) == IF BatchOf(j) # 0 THEN "g:id-" \o ToString(j) ELSE "id-" \o ToString(j)
+\* (episodes with hdr.wsids choose IDs with white space around them: an ID is an opaque string)
+RawId(j) == IF hdr.wsids THEN " id-" \o ToString(j) \o "\t" ELSE "id-" \o ToString(j)
+ExpectedId(j) == IF BatchOf(j) # 0 THEN "g:" \o RawId(j) ELSE RawId(j)
 C01_Identity == E.ev = "enter" /\ E.job \in Jobs =>
                    \* (E.idgen: an ID of the worker's generator that no other job of the episode carries)
                    IF hdr.idgen /\ (BatchOf(E.job) = 0 \/ hdr.wk = "plain") /\ ~IsAdapterQ(QOf(E.job)) THEN E.idgen ELSE E.id = ExpectedId(E.job)
